@@ -72,6 +72,9 @@ def run_one(tape, cfg):
             pool_tokens = [f"verif-tok-{tape.draw(2, 'tk')}", 1, "1", ("x", 1), "('x', 1)", 2.0, "2.0", b"k",
                            "b'k'"]
             used_tokens = []
+            reseed = tape.chance(1, 3, "reseed_global_random")
+            if reseed:
+                out.probe("global_random_reseeded_between_creations")
             for f in range(nfam):
                 explicit = tape.chance(1, 2, "explicit")
                 tok = None
@@ -83,6 +86,12 @@ def run_one(tape, cfg):
                     pick = alike if alike and tape.chance(2, 3, "alike") else cand
                     tok = pick[tape.draw(len(pick), "tok")]
                     used_tokens.append(tok)
+                if reseed:
+                    # a program that re-seeds the global random module (reproducible pipelines do):
+                    # separately created locks must still be different locks
+                    import random as _random
+
+                    _random.seed(4242)
                 lk = du.SerializableLock(tok) if explicit else du.SerializableLock()
                 pool = [lk]
                 ncopies = tape.draw(4, "ncopies")
